@@ -34,6 +34,11 @@ mixed cb_raise (mixed x) { if (cnt-- <= 0) error ("c06 half-way\n"); return ({ x
 int cb_keep (mixed x) { if (cnt-- <= 0) error ("c06 half-way\n"); return 1; }
 int cb_cmp (mixed x, mixed y) { if (cnt-- <= 0) error ("c06 half-way\n"); return cnt & 1 ? -1 : 1; }
 mixed three (mixed x, mixed y, mixed z) { return ({ x, y, z }); }
+// a function result nobody else holds: n copies of x
+mixed *mk (int n, mixed x) { mixed *r = allocate (n); int i; for (i = 0; i < n; i++) r[i] = x; return r; }
+mixed fe (mixed x) { foreach (mixed e in x) { if (e) return ({ e }); } return 0; }     // return out of a running foreach
+void catch_tell (string s) { }
+mixed va (mixed *args...) { return this_object ()->three (args...); }               // argument list expanded into a call
 mixed keep2 (mixed k, mixed v, mixed x) { return 1; }
 mixed same2 (mixed k, mixed v, mixed x) { return ({ v, x }); }
 int cmp3 (mixed x, mixed y, mixed z) { return 0; }
@@ -42,7 +47,9 @@ mixed store;
 
 // efuns / operators applied to slot values, results dropped; errors are caught
 void run_efun (int f, mixed a, mixed b) {
-  mixed r;
+  mixed r, q, l1, l2;
+  class c06cls oc;
+  mapping m;
   string s1, s2;
   int i1;
   switch (f) {
@@ -129,6 +136,80 @@ void run_efun (int f, mixed a, mixed b) {
     for (i1 = 0; i1 < 40; i1 += 2) map_delete (r, i1);
     r = r + ([ 1 : r[1] ]);
     break;
+  // ---- every lvalue-assignment form with counted old and new values (round 6); `store` is reset by "flush" ----
+  case 72:   // locals: F_VOID_ASSIGN_LOCAL, F_ASSIGN to a local, transfer of a dying local
+    l1 = ({ a }); l2 = l1; l1 = b; l2 = (l1 = ({ b, a })); l1 = l2 = ({ l1, l2 }); l2 = mk (2, l1); l1 = 0;
+    break;
+  case 73:   // globals: F_VOID_ASSIGN / F_ASSIGN on a global lvalue, op-assign on a global
+    store = ({ a }); store = (store = ({ b, store })); store += ({ a }); store = ([ 1 : store ]); store += ([ 2 : b ]); store = 0;
+    break;
+  case 74:   // indexed lvalues (array element, mapping value, nested)
+    r = ({ ({ a }), b, ([ 1 : a ]) }); r[0] = r[1]; r[1] = (r[0] = ({ a })); r[0] += ({ b }); r[2][1] = r[0]; r[2][2] = (r[2][3] = ({ b }));
+    r[<1] = r[0]; r[0][0] = ({ r[1] });
+    break;
+  case 75:   // range lvalues on arrays: temporary / shared right-hand side, same / shorter / longer, both forms
+    r = ({ ({ a }), ([ 1 : b ]), "s" + sizeof (a), a, b }); q = ({ ({ a }), b });
+    r[0..1] = ({ ({ b }), a }); r[1..2] = ({ a }); r[0..0] = ({ a, b, ({ a }) }); r[0..1] = q; r[2..3] = q; r[1..0] = q;
+    l1 = (r[0..1] = ({ b, a })); l1 = (r[0..0] = q); l1 = (r[<2..<1] = mk (2, a)); r[0..<1] = mk (1, q);
+    break;
+  case 76:   // class members: F_MEMBER_LVALUE with both assignment forms and op-assign
+    oc = new (class c06cls); oc->f0 = ({ a }); oc->f0 = (oc->f1 = ({ b })); oc->f1 += ({ a }); oc->f2 = oc->f0; oc->f2 = ([ 1 : oc->f1 ]); oc->f0 = 0; r = oc;
+    break;
+  case 77:   // op-assign forms on holders of counted values
+    r = ({ a }); r += ({ b }); r -= ({ a }); r = r & ({ b, a }); m = ([ 1 : a ]); m += ([ 2 : ({ b }) ]); m[1] = m[2];
+    q = "x" + sizeof (a); q += "y"; q += sizeof (b); l1 = q; l1 += q; r = ({ q, l1 }); r[0] += r[1]; m[3] = q; m[3] += "z";
+    break;
+  case 78:   // ++ / -- on numbers that live in holders next to counted values
+    r = ({ 1, ({ a }), 2 }); r[0]++; ++r[0]; r[2]--; --r[2]; m = ([ "k" : 1, "v" : ({ b }) ]); m["k"]++; m["n"]++; --m["k"];
+    oc = new (class c06cls); oc->f0 = 1; oc->f1 = ({ a }); oc->f0++; --oc->f0; l1 = r[0]++ + m["k"]--; store = 5; store++; --store; store = 0;
+    break;
+  case 79:   // range lvalues on strings and buffers: temporary / shared right-hand side, same and other length
+    q = "abcdef" + sizeof (a); q[0..1] = "xy"; q[0..0] = "long" + q; l1 = q; l1[1..2] = q; l2 = (q[2..3] = l1); l2 = (q[0..1] = "zz" + sizeof (b));
+    r = allocate_buffer (8); r[0..1] = allocate_buffer (2); r[0..3] = allocate_buffer (1); l1 = r; l1[0..0] = r; l2 = (r[1..2] = allocate_buffer (3));
+    break;
+  // ---- operators and efuns the opcode histogram (hook verif_op_hist) showed as never executed (round 6) ----
+  case 80:   // || ! != < > on counted operands, reverse index / range forms
+    r = a || b; r = b || ({ a }); r = !a + !({ b }); r = (a != b) + (({ a }) != ({ a })) + (a == b);
+    r = ("x" + sizeof (a) < "y") + ("x" > "w" + sizeof (b)); q = ({ 1, ({ a }), b, "s" + sizeof (a) });
+    r = q[<1]; r = q[<3..2]; r = q[<3..<1]; r = q[1..]; q[<2..2] = ({ a }); q[<2..<1] = ({ b, ({ a }) }); r = q[<2];
+    break;
+  case 81:   // op-assign and ++/-- in value context, while (i--), mapping composition
+    q = ({ a }); r = (q += ({ b })); r = (q -= ({ a })); m = ([ 1 : a ]); r = (m += ([ 2 : b ])); l1 = ({ 1, 2 }); r = ++l1[0]; r = --l1[1];
+    i1 = 3; while (i1--) r = ({ r, a }); l2 = "s" + sizeof (a); r = (l2 += "t"); r = ([ 1 : 2 ]) * ([ 2 : ({ a }) ]);
+    break;
+  case 82:   // leaving a running foreach: break, return
+    foreach (mixed e in ({ ({ a }), b, ({ b }) })) { r = e; if (arrayp (e)) break; }
+    foreach (mixed k, mixed e in ([ 1 : ({ a }), 2 : b ])) { r = ({ k, e }); break; }
+    r = fe (({ 0, ({ a }), b })); r = fe (({ ({ b }) }));
+    foreach (mixed e in "ab" + sizeof (a)) { r = e; break; }
+    break;
+  case 83:   // class with initialisers, argument expansion, inherited call, time_expression
+    oc = new (class c06cls, f0 : ({ a }), f1 : b); r = oc; r = va (({ a }), b, mk (2, a)); r = "/c06/uobj"->call_base (({ a }));
+    r = time_expression { q = ({ a, b }); };
+    break;
+  case 84:   // type predicates and one-argument efuns: the argument is released
+    r = objectp (a) + functionp ((: same, a :)) + classp (new (class c06cls)) + bufferp (allocate_buffer (1)) + intp (({ a })) + undefinedp (([ ])[1]);
+    r = floatp (b) + clonep (this_object ()) + virtualp (this_object ()) + interactive (this_object ()) + userp (this_object ()) + living (this_object ());
+    r = file_name (this_object ()) + geteuid (this_object ()) + ctime (0); r = localtime (0); r = to_float (1); r = random (3);
+    break;
+  case 85:   // object relations: results are arrays of objects / strings
+    r = all_inventory (this_object ()) + deep_inventory (this_object ()); r = first_inventory (this_object ()); r = environment ();
+    r = present ("x", this_object ()); r = users () + livings () + heart_beats () + named_livings (); r = find_object ("/c06/main");
+    r = inherits ("/c06/base", find_object ("/c06/uobj")); r = function_exists ("same", this_object ()); r = origin (); r = previous_object ();
+    r = master (); r = shallow_inherit_list (find_object ("/c06/uobj")); r = rusage ();
+    break;
+  case 86:   // strings, bits, files
+    r = strsrch ("abc" + sizeof (a), "b"); r = strcmp ("a" + sizeof (a), "b"); r = test_bit (set_bit ("", 3), 3) + next_bit (set_bit ("", 3), 0);
+    r = get_dir ("/c06/"); r = stat ("/c06/main.c"); r = file_size ("/c06/main.c") + file_length ("/c06/base.c"); r = read_file ("/c06/base.c", 1, 1);
+    r = read_bytes ("/c06/base.c", 0, 4); r = crypt ("x" + sizeof (a), "ab"); r = pow (2.0, 2.0); r = time () + uptime ();
+    break;
+  case 87:   // messages to objects
+    tell_object (this_object (), "t" + sizeof (a)); tell_room (this_object (), "r" + sizeof (b)); tell_room (this_object (), "r", ({ this_object () }));
+    message ("c", "m" + sizeof (a), this_object (), ({ this_object () }));
+    break;
+  case 88:   // a mapping with more than 256 and more than 65536/256 nodes, released at once
+    m = ([ ]); for (i1 = 0; i1 < 300; i1++) m[i1] = (i1 & 7) ? i1 : ({ a }); r = m; m = 0; r = sizeof (r) + sizeof (keys (r));
+    break;
   case 39: r = allocate_mapping (3); r["k"] = ({ a }); r[({ b })] = r["k"] + raise (b); break;
   }
 }
@@ -136,12 +217,14 @@ void run_efun (int f, mixed a, mixed b) {
 // returns 1; the harness has already checked that the operation is applicable
 int do_op (string line) {
   string *w = explode (line, " ");
-  int a, b, c, d, e;
+  int a, b, c, d, e, f;
+  mixed x;
   if (sizeof (w) > 1) a = to_int (w[1]);
   if (sizeof (w) > 2) b = to_int (w[2]);
   if (sizeof (w) > 3) c = to_int (w[3]);
   if (sizeof (w) > 4) d = to_int (w[4]);
   if (sizeof (w) > 5) e = to_int (w[5]);
+  if (sizeof (w) > 6) f = to_int (w[6]);
   switch (w[0]) {
   case "newarr": v[a] = allocate (b); break;
   case "newmap": v[a] = allocate_mapping (0); break;
@@ -197,6 +280,8 @@ int do_op (string line) {
   case "sappend": v[a] += b; break;              // string += number: EXTEND_SVALUE_STRING
   case "sjoin": v[a] += v[b]; break;             // string += string: SVALUE_STRING_JOIN
   case "sadd": v[a] = v[b] + c; break;           // string + number on a pushed copy
+  case "saddl": v[a] = c + v[b]; break;          // number + string: SVALUE_STRING_ADD_LEFT
+  case "sadd2": v[a] = v[b] + v[c]; break;       // string + string on two pushed copies
   case "schar": v[a][b] = w[3][0]; break;        // unlink_string_svalue + byte store
   case "srange": v[a][b..c] = w[4]; break;       // unlink_string_svalue + copy_lvalue_range
   case "rest": catch (restore_variable (w[1])); break;      // value builder on a (possibly damaged) save text
@@ -204,6 +289,16 @@ int do_op (string line) {
   case "inpr": obs[a]->doinput2 (v[b], v[c]); break;
   case "inp": obs[a]->doinput (v[b], v[c], (b + c) & 1); break;     // odd slot sum: get_char() (same bookkeeping, own code)
   case "err": boom (v[a], v[b], 3); break;
+  // assignment to a range lvalue: statement form (copy_lvalue_range) and value form (assign_lvalue_range)
+  case "arange":
+    if (f) { x = (v[a][b..b + c - 1] = mk (d, v[e])); x = 0; }
+    else v[a][b..b + c - 1] = mk (d, v[e]);
+    break;
+  case "arangev":
+    if (e) { x = (v[a][b..b + c - 1] = v[d]); x = 0; }
+    else v[a][b..b + c - 1] = v[d];
+    break;
+  case "brange": v[a][b..b + c - 1] = allocate_buffer (d); break;
   case "reclaim":
     // reclaim_objects() walks the variables of every object, this one included: `v` (the slots), then `obs` (the handles)
     a = reclaim_objects ();
